@@ -14,7 +14,7 @@ FLOORS = {"had_failure": 0.1, "had_success": 0.3, "reject_C09": 0.005, "multi_po
 
 
 def plan(tier):
-    n = 4000 if tier == "quick" else 120000
+    n = 4000 if tier == "quick" else 50000
     return [{"kind": "hypothesis", "examples": n}]
 
 
